@@ -127,6 +127,14 @@ class Race(Obligation):
         h, acts = res['h'], res['acts']
         w = acts[0]
         out = [Claim('every mutator call ran to completion', all(a.state == 'done' for a in acts[1:]))]
+        # the counters are the net of all increments and decrements, whatever order they were applied in (a dec may overtake its inc)
+        nb, nm = h['b0'], h['m0']
+        for a, kind in zip(acts[1:], self.muts):
+            db, dm = a.deltas
+            nb, nm = (nb + db, nm + dm) if kind == 'inc' else (nb - db, nm - dm)
+        M64 = 1 << 64
+        out.append(Claim('after all calls the outstanding counts are initial + increments - decrements (mod 2^64): the order of the calls does not matter',
+                         z3.And(h['bytes'].cell.v.t == nb % M64, h['msgs'].cell.v.t == nm % M64)))
         out += waiter_claims(p, h, w)
         out.append(Cover('waiter parked at the end (capacity still exhausted)', w.state == 'parked'))
         out.append(Cover('waiter woken by a mutator and resumed', w.state == 'done' and w.polls >= 2))
